@@ -76,6 +76,31 @@ fn nt_s(t: Option<NlriType>) -> String {
     match t { None => "-".into(), Some(n) => format!("{}{}", fam_s(n.afi_safi()), if format!("{:?}", n).ends_with("Addpath") { "+" } else { "" }) }
 }
 
+fn aspath_probe_panics(msg: &[u8], four: bool) -> bool {
+    // a plain TLV walk over the attribute section (the message was accepted: the section lengths are consistent)
+    let get16 = |i: usize| msg.get(i..i + 2).map(|b| usize::from(u16::from_be_bytes([b[0], b[1]])));
+    let Some(wl) = get16(19) else { return false };
+    let Some(al) = get16(21 + wl) else { return false };
+    let mut i = 23 + wl;
+    let end = (i + al).min(msg.len());
+    while i + 3 <= end {
+        let (flags, code) = (msg[i], msg[i + 1]);
+        let (len, hl) = if flags & 0x10 != 0 { match get16(i + 2) { Some(l) => (l, 4), None => return false } } else { (usize::from(msg[i + 2]), 3) };
+        let Some(v) = msg.get(i + hl..i + hl + len) else { return false };
+        if code == 2 || code == 17 {
+            for width in [four, true, false] {
+                let r = guard(|| match routecore::bgp::aspath::AsPath::new(v.to_vec(), width) {
+                    Err(_) => 0usize,
+                    Ok(p) => p.hops().count() + p.segments().count() + format!("{p}").len() + p.to_hop_path().hop_count(),
+                });
+                if r.is_none() { return true; }
+            }
+        }
+        i += hl + len;
+    }
+    false
+}
+
 pub fn observe(id: &str, four: bool, ap: &str, bytes: &[u8], out: &mut impl Write) {
     let sc = session_config(four, ap);
     let cap = 4 * bytes.len() + 64;
@@ -110,6 +135,9 @@ pub fn observe(id: &str, four: bool, ap: &str, bytes: &[u8], out: &mut impl Writ
     let origin = g(|| u.origin(), |o| o.map(|x| u8::from(x).to_string()).unwrap_or("-".into()));
     let aspath = g(|| u.aspath(), |o| o.map(|p| hops(p)).unwrap_or("none".into()));
     let as4path = g(|| u.as4path(), |o| o.map(|p| hops(p)).unwrap_or("none".into()));
+    // the value octets of every AS_PATH / AS4_PATH attribute of the accepted message, valid or not, given to AsPath::new on their
+    // own (what a user does with the raw value of an attribute reported as invalid): an error or a path that can be walked
+    let aspath = if aspath_probe_panics(bytes, four) { "ASPATH-NEW-PANIC".to_string() } else { aspath };
     let nh = g(|| u.conventional_next_hop(), |o| o.map(|n| nh_s(&n)).unwrap_or("-".into()));
     let med = g(|| u.multi_exit_disc(), |o| o.map(|m| m.0.to_string()).unwrap_or("-".into()));
     let lp = g(|| u.local_pref(), |o| o.map(|m| m.0.to_string()).unwrap_or("-".into()));
